@@ -51,8 +51,11 @@ def new_world(P, prime, contracts, modules, extra=None, contract=None):
         c = ct.Ctx(w, g)
         w.ctx = c
         return w, g, c
-    w.module_overrides["pysnark.snarkjsbackend"] = gh.make_backend_module(w, g)
-    w.import_module("pysnark.snarkjsbackend")
+    ghost_as = getattr(contract, "ghost_as", None) or "pysnark.snarkjsbackend"
+    if contract is not None:
+        contract.world_setup(w)
+    w.module_overrides[ghost_as] = gh.make_backend_module(w, g, ghost_as)
+    w.import_module(ghost_as)
     w.use_contracts = False          # module initialisation runs the real bodies
     for m in modules:
         w.import_module(m)
@@ -239,6 +242,9 @@ def run_config(contract, cfg, facets="VCSTRN", prime=None, tier="quick", max_pat
     t0 = time.time()
     import sys as _sys
     _sys.unraisablehook = lambda *a: None      # interpreted __del__ methods of abandoned paths
+    if hasattr(_sys, "set_int_max_str_digits"):
+        _sys.set_int_max_str_digits(0)         # coefficients of long linear chains are exact, unreduced integers
+    facets = "".join(ch for ch in facets if ch not in getattr(contract, "skip_facets", ""))
     prime = prime or gh.PRIMES[cfg.get("prime", "bn254")]
     timeout_ms = QUICK_TIMEOUT_MS if tier == "quick" else QUICK_TIMEOUT_MS * 6
     res = dict(function=contract.name, cfg=_cfg_repr(cfg), paths=0, normal_paths=0, raise_paths=0,
@@ -441,6 +447,17 @@ def run_config(contract, cfg, facets="VCSTRN", prime=None, tier="quick", max_pat
 
 def _discharge_standalone(hyps, goal, timeout_ms):
     t0 = time.time()
+    goal = formula(goal)
+    if z3.is_true(z3.simplify(goal)):
+        return "proved", 0.0, None, "simplifier"
+    if len(hyps) > SLICE_THRESHOLD:
+        sl = cone_of_influence(hyps, [goal])
+        s = z3.Solver()
+        s.set("timeout", timeout_ms)
+        s.add(*sl)
+        s.add(z3.Not(goal))
+        if s.check() == z3.unsat:
+            return "proved", time.time() - t0, None, "z3/sliced"
     s = z3.Solver()
     s.set("timeout", timeout_ms)
     s.add(*hyps)
